@@ -69,6 +69,27 @@ def _callable_noargs(fn):
     return True
 
 
+# arguments for the hand-written adders that need some (add_lumMod(value), add_tr(height), add_sldId(rId), ...), by parameter name
+_ARGS = {"value": 0.5, "x": 0, "y": 0, "w": 914400, "h": 914400, "height": 914400, "width": 914400, "rId": "rId7", "ext": "xml",
+         "content_type": "application/xml", "partname": "/ppt/verif.xml", "idx": 0, "text": "t", "name": "n"}
+
+
+def _required_args(fn):
+    """kwargs for fn's required parameters out of _ARGS, or None when one of them has no entry."""
+    try:
+        sig = inspect.signature(fn)
+    except (TypeError, ValueError):
+        return None
+    out = {}
+    for i, (n, p) in enumerate(sig.parameters.items()):
+        if i == 0 or p.default is not inspect._empty or p.kind in (p.VAR_POSITIONAL, p.VAR_KEYWORD):
+            continue
+        if n not in _ARGS:
+            return None
+        out[n] = _ARGS[n]
+    return out
+
+
 def check_decl(T, cls, d, acc, pairwise, regs):
     from pptx.oxml import oxml_parser
     from vlib import ctxgen, xsdkit
@@ -114,12 +135,14 @@ def check_decl(T, cls, d, acc, pairwise, regs):
                     if meth.startswith("_remove_") or meth.startswith("get_or_change_to_"):
                         continue
                     fn = getattr(cls, meth)
-                    if meth.startswith("add_") and not _callable_noargs(fn):
-                        acc.count("public_adders_with_required_args_skipped")
-                        continue
-                    if meth.startswith("_add_") and not _callable_noargs(fn):
-                        acc.count("private_adders_with_required_args_skipped")
-                        continue
+                    kw = {}
+                    if (meth.startswith("add_") or meth.startswith("_add_")) and not _callable_noargs(fn):
+                        kw = _required_args(fn)
+                        if kw is None:
+                            acc.count("adders_with_unknown_required_args_skipped")
+                            acc.note("%s.%s%s: no argument table entry" % (cls.__name__, meth, inspect.signature(fn)))
+                            continue
+                        acc.count("adders_called_with_table_arguments")
                     parent = _mk(oxml_parser, T, before)
                     try:
                         if meth.startswith("_insert_"):
@@ -127,7 +150,7 @@ def check_decl(T, cls, d, acc, pairwise, regs):
                             child = newm() if newm is not None and _callable_noargs(newm) else oxml_parser.makeelement(X)
                             fn(parent, child)
                         else:
-                            fn(parent)
+                            fn(parent, **kw)
                             if meth.startswith("get_or_add_"):
                                 fn(parent)
                                 if _count(parent, X) != _count_list(before, X) + (1 if X not in before else 0):
